@@ -1,8 +1,3 @@
 package main
 
-func checkC18(ca *checkArgs) int { inconclusive("C18 not built yet"); return 2 }
-func checkC20(ca *checkArgs) int { inconclusive("C20 not built yet"); return 2 }
-func replayC18(path string) int  { inconclusive("C18 not built yet"); return 2 }
-func replayC20(path string) int  { inconclusive("C20 not built yet"); return 2 }
 func cmdSelftest(args []string)  { inconclusive("selftest not built yet") }
-func makeOverlay(yields bool) string { inconclusive("overlay not built yet"); return "" }
